@@ -243,6 +243,8 @@ class Repo:
             c = out[i]
             i += 1
             for b in c.base_exprs:
+                if isinstance(b, ast.Subscript):      # Generic[...] style base: Recognizer[ChoiceOptions]
+                    b = b.value
                 bname = b.id if isinstance(b, ast.Name) else (b.attr if isinstance(b, ast.Attribute) else None)
                 if bname is None:
                     continue
